@@ -20,6 +20,7 @@ CONSTANTS TargetSet,     \* subset of Targets
           EnumOps,       \* enum tags used as operands
           EnumBFs,       \* enum tags that get bit-field operands
           Devs,          \* deviations of the shipped code (subset of AllDevs)
+          CondCVs,       \* controlling expressions of ?: (subset of the elements of CTypes.CondControls)
           Forms,         \* which case families to enumerate
           Emit           \* BOOLEAN: print VCASE lines
 
@@ -38,6 +39,7 @@ IntOperands == {o \in Operands : IsInt(o.t)}
 AsX(o) == X(o.t, o.w, TRUE, FALSE)
 OName(o) == IF o.w = 0 THEN Name(o.t) ELSE Name(o.t) \o ":" \o ToString(o.w)
 
+ASSUME CondCVs \subseteq {CondControls[i] : i \in 1..Len(CondControls)}
 LitBases == {"dec", "oct", "hex", "bin"}
 LitSuffixes == {"", "u", "l", "ul", "ll", "ull"}
 LitBits == {0, 1, 7, 8, 15, 16, 31, 32, 33, 63, 64}
@@ -45,7 +47,7 @@ UnOps == {"+", "-", "~", "!", "sizeof"}
 
 Cases ==
      (IF "bin" \in Forms THEN [form : {"bin"}, targ : TargetSet, a : Operands, b : Operands] ELSE {})
-\cup (IF "cond" \in Forms THEN [form : {"cond"}, targ : TargetSet, a : Operands, b : Operands, cv : {"x", "1", "0"}] ELSE {})
+\cup (IF "cond" \in Forms THEN [form : {"cond"}, targ : TargetSet, a : Operands, b : Operands, cv : CondCVs] ELSE {})
 \cup (IF "un" \in Forms THEN [form : {"un"}, targ : TargetSet, a : Operands] ELSE {})
 \cup (IF "lit" \in Forms THEN [form : {"lit"}, targ : TargetSet, base : LitBases, suffix : LitSuffixes, nbits : LitBits] ELSE {})
 \cup (IF "flt" \in Forms THEN [form : {"flt"}, targ : TargetSet, suffix : {"", "f", "l"}] ELSE {})
@@ -90,13 +92,13 @@ A_MulDiv == BinAct("muldiv")
 A_Shift == BinAct("shift")
 
 (* ---- condexpr -------------------------------------------------------------- *)
-(* cv: the controlling expression is a variable ("x") or the constant 1 / 0 (the node is then folded) *)
+(* cv: the controlling expression (CTypes.CondControls): a variable ("x") or a constant (the node is then folded) *)
 A_Cond ==
   /\ c.form = "cond" /\ ~r.done
   /\ LET x == AsX(c.a)
          y == AsX(c.b)
-         f(D) == IF c.cv = "x" THEN M_condexpr(x, y, c.targ, D) ELSE M_condexpr_folded(x, y, c.cv = "1", c.targ, D)
-         ch == IF c.cv = "1" THEN x ELSE y
+         f(D) == IF c.cv = "x" THEN M_condexpr(x, y, c.targ, D) ELSE M_condexpr_folded(x, y, CondSelectsFirst(c.cv), c.targ, D)
+         ch == IF CondSelectsFirst(c.cv) THEN x ELSE y
      IN Done("cond", <<"?:">>, TypeOfCond(x, y, c.targ), f({}).t, f(Devs).t, f(Devs).br, Fired(LAMBDA D : f(D).t), TRUE,
              <<c.cv # "x" /\ M_sizeof_refuses(ch, M_condexpr(x, y, c.targ, Devs).t, Devs)>>)
   /\ UNCHANGED c
